@@ -20,8 +20,9 @@ class Prop:
     def generate(self, rng, tier):
         depth = rng.choice([0, 1, 1, 2, 2, 3, 4])
         sc = pipe.gen(rng, depth, nonconforming_p=0.35, rogue_p=0.25)
+        expanding = "expand_take" in catalog.ops_of(sc["program"])  # expand over an inner that emits inside subscribe() never leaves the instant
         for s in sc["sources"]:
-            if s["kind"] == "cold" and rng.random() < 0.25:
+            if s["kind"] == "cold" and rng.random() < 0.25 and not (expanding and s["id"].startswith("p")):
                 s["kind"] = "syncthen"  # first event synchronously inside subscribe(), uncaught; the rest later
         sites = catalog.sites_of(sc["program"])
         faults = []
@@ -29,7 +30,7 @@ class Prop:
             for _ in range(rng.choice([1, 1, 2])):
                 faults.append({"site": rng.choice(sites), "k": rng.randrange(0, 4)})
         sc["faults"] = faults
-        if rng.random() < (0.5 if depth == 0 else 0.2):
+        if rng.random() < (0.5 if depth == 0 else 0.2) and not expanding:  # a raising subscriber keeps take() from ending an expansion
             sc["sub_raise"] = rng.randrange(0, 4)
         r = rng.random()
         if r < 0.15:
